@@ -17,6 +17,9 @@ from lbry.extras.daemon.exchange_rate_manager import ExchangeRateManager
 from lbry.schema.claim import Claim
 from lbry.schema.purchase import Purchase
 from lbry.wallet import Ledger, Database, Headers, Transaction, Input, Output
+from lbry.error import InsufficientFundsError
+from lbry.extras.daemon.json_response_encoder import JSONResponseEncoder
+import lbry.wallet.usage_payment as usage_payment
 
 import vlib
 
@@ -458,6 +461,123 @@ def check_history(run, model, prices):
         loop.close()
 
 
+def check_server_fee(run, model, fees):
+    """WalletServerPayer: the wallet server advertises its daily fee as an LBC string; the payer must pay exactly that amount or,
+    for a string outside the grammar (e.g. a server talking in dewies / whole numbers), pay nothing"""
+    loop = asyncio.new_event_loop()
+
+    class Net:
+        def __init__(self):
+            self.fee = None
+
+        async def get_server_features(self):
+            return {'payment_address': 'bAddr', 'daily_fee': self.fee}
+
+    class FakeLedger:
+        def __init__(self):
+            self.network = Net()
+
+        def is_pubkey_address(self, address):
+            return True
+
+        def address_to_hash160(self, address):
+            return b'\x07' * 20
+
+    class FakeWallet:
+        is_locked = False
+
+        def get_accounts_or_all(self, _):
+            return []
+
+        def get_account_or_default(self, _):
+            return None
+
+    real_create = usage_payment.Transaction.create
+    try:
+        for fee in fees:
+            case = {'op': 'server_fee', 'fee': fee}
+            run.case(case, nontrivial=True, sample=False)
+            run.count('server-fee:' + ('valid' if GRAMMAR.fullmatch(fee) else 'malformed'))
+            paid = []
+            payer = usage_payment.WalletServerPayer(payment_period=0, max_fee='9999999999.99999999')
+            ledger = FakeLedger()
+            ledger.network.fee = fee
+
+            async def create(inputs, outputs, *a, **kw):
+                paid.append(outputs[0].amount)
+                payer.running = False
+                raise InsufficientFundsError()
+            usage_payment.Transaction.create = create
+            payer.ledger, payer.wallet, payer.running = ledger, FakeWallet(), True
+
+            async def one_round():
+                try:
+                    await asyncio.wait_for(payer._pay(), 0.5)   # pylint: disable=protected-access
+                except Exception:  # noqa  (a refused fee ends the round with ValueError; an empty fee loops until the timeout)
+                    pass
+                payer.running = False
+            loop.run_until_complete(one_round())
+            mod = model.call('parse', s=fee.encode('utf-8', 'surrogatepass').hex())
+            if GRAMMAR.fullmatch(fee):
+                whole, frac = fee.split('.')
+                want = int(whole) * 10 ** 8 + int(frac) * 10 ** (8 - len(frac))
+                if paid != [want]:
+                    run.violation(case, f'the server fee {fee!r} should be paid as {want} dewies, the payer prepared {paid}',
+                                  signature={'op': 'server_fee', 'fee': fee})
+                    continue
+            elif paid:
+                run.violation(case, f'the server fee string {fee!r} is outside the grammar but the payer prepared a payment of '
+                                    f'{paid[0]} dewies instead of refusing it', signature={'op': 'server_fee', 'fee': fee})
+                continue
+            run.compare('C20.server_fee', case, paid[0] if paid else None, mod)
+    finally:
+        usage_payment.Transaction.create = real_create
+        loop.close()
+
+
+def check_encode_transaction(run, model, amounts):
+    """JSONResponseEncoder.encode_transaction: total_input / total_output / total_fee of a transaction some of whose inputs are
+    unknown to the wallet (a foreign transaction): the fee figure is then a NEGATIVE delta and must still be its exact decimal"""
+    loop = asyncio.new_event_loop()
+    try:
+        ledger = Ledger({'db': Database(':memory:'), 'headers': Headers(':memory:')})
+        loop.run_until_complete(ledger.headers.open())
+        enc = JSONResponseEncoder(ledger=ledger)
+        for i, n in enumerate(amounts):
+            known = Transaction().add_outputs([Output.pay_pubkey_hash(n + 1000 if i % 2 else 12345, b'\x01' * 20)])
+            funding_known = Input.spend(known.outputs[0])
+            tx = Transaction().add_inputs([funding_known]).add_outputs([Output.pay_pubkey_hash(n, b'\x02' * 20)])
+            if i % 2 == 0:
+                tx = Transaction(tx.raw)            # as received from somebody else: no input is resolved
+                in_sum = 0
+            else:
+                in_sum = n + 1000
+            want = {'total_input': in_sum, 'total_output': n, 'total_fee': in_sum - n}
+            case = {'op': 'encode_tx', 'n': n, 'resolved': bool(i % 2)}
+            run.case(case, nontrivial=True, sample=False)
+            run.count('encode-tx:' + ('resolved' if i % 2 else 'foreign'))
+            try:
+                out = enc.encode_transaction(tx)
+            except Exception as e:  # noqa
+                run.violation(case, f'encode_transaction raised {type(e).__name__}: {e}', signature={'op': 'encode_tx', 'n': n})
+                continue
+            bad = None
+            for key, w in want.items():
+                v = out.get(key)
+                bad = (f'{key} is {v!r}, not a signed LBC decimal string' if not (isinstance(v, str) and SIGNED.fullmatch(v))
+                       else monitor_format(w, v))
+                if bad:
+                    bad = f'{key}: {bad}'
+                    break
+            if bad:
+                run.violation(case, f'transaction paying {n} dewies ({"own" if i % 2 else "foreign"} inputs): {bad}',
+                              signature={'op': 'encode_tx', 'n': n, 'resolved': bool(i % 2)})
+            else:
+                run.compare('C20.encode_tx', case, {k: out[k] for k in want}, {k: model.call('format', n=w) for k, w in want.items()})
+    finally:
+        loop.close()
+
+
 def main(run):
     model = vlib.Model('C20')
     rng = run.rng
@@ -499,6 +619,11 @@ def main(run):
                         [n for n in gen_ints(rng, vlib.scaled(run.tier, 40, 600)) if 0 <= n <= SUPPLY], mal)
     check_history(run, model, [1, 99999999, 10 ** 8, 150000000, 2 ** 53 + 1, SUPPLY - 10 ** 7] +
                   [n for n in gen_ints(rng, vlib.scaled(run.tier, 20, 400)) if 0 < n <= SUPPLY - 10 ** 7])
+    fee_strings = [x for x in FIXED_STRINGS if '\x00' not in x] + ['1', '5', '0', '0000000007', '12', '0.01', '2.5', '10.0'] + \
+        [x for x in gen_strings(rng, vlib.scaled(run.tier, 40, 2000)) if x and '\x00' not in x]
+    check_server_fee(run, model, fee_strings)
+    check_encode_transaction(run, model, [1, 150000000, 10 ** 8, 2 ** 53 + 1, SUPPLY - 10 ** 7] +
+                             [n for n in gen_ints(rng, vlib.scaled(run.tier, 30, 600)) if 0 < n <= SUPPLY - 10 ** 7])
     strings = FIXED_STRINGS + list(gen_strings(rng, vlib.scaled(run.tier, 600, 20000)))
     for i, a in enumerate(strings):
         k = i % 4
@@ -526,6 +651,10 @@ def replay(run, case):
         check_claim_storage(run, model, [], [case['amount']])
     elif case.get('op') == 'history':
         check_history(run, model, [int(case['price'])])
+    elif case.get('op') == 'server_fee':
+        check_server_fee(run, model, [case['fee']])
+    elif case.get('op') == 'encode_tx':
+        check_encode_transaction(run, model, [int(case['n'])] * 2)
     elif case.get('op') == 'dict':
         check_dict(run, model, case['d'], 'replay')
     elif case.get('op') == 'format':
